@@ -148,10 +148,10 @@ let () =
             coerces strings to valid UTF-8); descriptor and events are what Pack handed out *)
          let bytes = json_manifest m in
          let m = san_manifest m in
-         Printf.printf "%s OK %s:%s:%s kind=%s cfg=%s layers=%s subj=%s at=%s ann=%s EV %s BYTES %s\n" id
+         Printf.printf "%s OK %s:%s:%s kind=%s cfg=%s layers=%s subj=%s at=%s ann=%s EV %s SIZE %d BYTES %s\n" id
            (hex_of_str d.d_mt) (hex_of_str d.d_at) (show_ann d.d_ann)
            (match m.m_kind with KImage -> "I" | KArtifact -> "A")
            (show_odesc m.m_config) (show_list m.m_layers) (show_odesc m.m_subject)
-           (hex_of_str m.m_at) (show_ann m.m_ann) (show_events s'.s_events) (hex_of_str bytes))
+           (hex_of_str m.m_at) (show_ann m.m_ann) (show_events s'.s_events) (int_of_z d.d_sz) (hex_of_str bytes))
     | [] -> ()
     | _ -> Printf.printf "BADLINE %s\n" l)
